@@ -1,5 +1,7 @@
 """C08-C11: wind-wave source terms, joint rotation, roughness lengths, wind inversion."""
 import math
+import os
+import sys
 import warnings
 
 import numpy as np
@@ -183,6 +185,22 @@ def c08(run, drv, rng, ncases):
                     run.violation("source terms of a spectrum depend on the grid of the spectrum the same term object evaluated before "
                                   "(rates no longer use the spectrum's own directions and bin widths)",
                                   dict(info, other_frequency=ds2["frequency"].values.tolist(), other_direction=ds2["direction"].values.tolist()))
+            # ---- a term object whose parameters are updated between two evaluations of the same spectrum object
+            if case % 3 == 1:
+                run.case("term_object_after_update_parameters", key=(case, dkind))
+                others = [v for v in (wp.ST4_VARIANTS if dkind == "st4" else wp.ST6_VARIANTS) if v and v != dv]
+                newv = rng.choice(others)
+                dis3, _ = wp.dissipation(dkind, dv)
+                dis3.rate(spec)
+                dis3.update_parameters(newv)
+                Db3 = dis3.bulk_rate(spec).values             # asked before any new rate() call
+                D3 = dis3.rate(spec).values
+                fresh, _ = wp.dissipation(dkind, dict(dv, **newv))
+                Dfr, Dbfr = fresh.rate(spec).values, fresh.bulk_rate(spec).values
+                if not (np.array_equal(D3, Dfr, equal_nan=True) and np.allclose(Db3, Dbfr, rtol=1e-12, atol=0, equal_nan=True)):
+                    run.violation("after update_parameters a dissipation term does not return what a fresh term with those parameters returns "
+                                  "(bulk rate no longer the integral of the spectral rate for the present parameters)",
+                                  dict(info, updated=newv, bulk=Db3.tolist(), fresh_bulk=Dbfr.tolist()))
             # ---- a supplied roughness with one missing element: the other points keep their supplied value
             if npts >= 2 and case % 3 == 2:
                 run.case("roughness_with_missing_element", key=(case,))
@@ -552,6 +570,13 @@ def c10_charnock(run, drv, rng, ncases):
             ch = rng.choice([0.005, 0.0095, 0.012, 0.0185, 0.04])
             visc = rng.choice([0.0, 0.0, 0.11, 0.3])
             kind = rng.choice(["array", "dataarray", "float", "npscalar", "dataarray0", "array2d"])
+            if case < 5:
+                # the corners of the box in every run: strongest and weakest winds under every Charnock constant
+                U = np.array([80.0, 0.1, 59.5, 70.0, 79.0][:max(n, 2)])
+                Un = U.copy()
+                ch = [0.04, 0.04, 0.0185, 0.005, 0.012][case]
+                kind = ["array", "dataarray", "array", "array2d", "array"][case]
+                run.count("charnock_box_corner")
             if kind == "array":
                 inp = Un.copy()
             elif kind == "dataarray":
@@ -894,6 +919,47 @@ def c11(run, drv, rng, ncases):
                         and np.allclose(ou["direction"].values, udir, rtol=1e-9, atol=0, equal_nan=True)):
                     run.violation("a spectrum with missing depth does not get the wind estimate of the same spectrum in deep water",
                                   dict(info, missing_depth_u10=ou["u10"].values.tolist()))
+            # an inversion on another grid of the same size and frequency range in between (other direction labels) must not change what this spectrum gets afterwards
+            if case >= 0 and case % 3 >= 1 and tds is None:
+                run.case("inversion_after_another_grid", key=(case,))
+                ds2 = spec.dataset.copy(deep=True)
+                f_old = ds2["frequency"].values
+                # (the same sea with its directions relabelled: on a uniform grid a rotation by 187 mod the bin width)
+                ds2 = ds2.assign_coords(direction=np.sort((ds2["direction"].values + 187.0) % 360))
+                from ocean_science_utilities.wavespectra.spectrum import FrequencyDirectionSpectrum as _FDS
+                other = _FDS(ds2)
+                try:
+                    oo = estimate_u10_from_source_terms(other, bal)
+                    # the other sea is inverted on ITS grid: the reported direction is its own dissipation-weighted direction,
+                    # and its own bulk balance closes at the reported wind
+                    od, ou_ = oo["direction"].values, oo["u10"].values
+                    wantd = dis.mean_direction_degrees(other).values
+                    Dbo = dis.bulk_rate(other).values
+                    dd_ = np.diff(spec.dataset["direction"].values)
+                    for i in range(npts):
+                        if u10[i] == u10[i] and ou_[i] != ou_[i] and np.allclose(dd_, dd_[0]):
+                            run.violation("the relabelled (rotated) sea gets no wind estimate although the sea itself gets one "
+                                          "(it was inverted after a spectrum on another grid of the same size)",
+                                          dict(info, point=i, u10=float(u10[i])))
+                        if Dbo[i] < -1e-10 and od[i] == od[i]:
+                            if abs(wp.ang_diff(od[i], wantd[i])) > 1e-6:
+                                run.violation("the wind direction of an inversion is not the dissipation-weighted direction of the spectrum that was inverted "
+                                              "(a spectrum on another grid of the same size was inverted before)",
+                                              dict(info, point=i, got=float(od[i]), want=float(wantd[i])))
+                            elif ou_[i] == ou_[i] and ou_[i] > 0:
+                                gb = float(gen.bulk_rate(wp.subset(other, [i]), wp.da(ou_[i:i + 1]), wp.da(od[i:i + 1])).values[0])
+                                if gb == gb and abs(gb + Dbo[i]) > 0.1 * abs(Dbo[i]):
+                                    run.violation("the bulk balance of a spectrum does not close at the wind its inversion returned "
+                                                  "(a spectrum on another grid of the same size was inverted before)",
+                                                  dict(info, point=i, u10=float(ou_[i]), bulk_input=gb, bulk_dissipation=float(Dbo[i])))
+                except Exception as ex:
+                    run.count("inversion_on_other_grid_raised_" + type(ex).__name__ + "_" + str(ex)[:60].replace(" ", "_"))
+                oa = estimate_u10_from_source_terms(spec, bal)
+                if not (np.allclose(oa["u10"].values, u10, rtol=1e-12, atol=0, equal_nan=True)
+                        and np.allclose(oa["direction"].values, udir, rtol=1e-12, atol=0, equal_nan=True)):
+                    run.violation("the wind estimate of a spectrum depends on the grid of the spectrum that was inverted before it",
+                                  dict(info, before=u10.tolist(), after=oa["u10"].values.tolist(),
+                                       direction_before=udir.tolist(), direction_after=oa["direction"].values.tolist()))
             # batch = single
             if npts > 1:
                 i = rng.randrange(npts)
